@@ -5,7 +5,7 @@
 //! `Scripted<N>` is a harness-local `Connector` (associated subscriber / validator / response types reused from
 //! the repository; none of them is ever called) + `StreamSelector` whose `Stream` type is `ScriptedStream`, a
 //! harness-local `MarketStream`: its `init` pops the next entry of a global script (init failure, or a finite
-//! list of `Ok(event)` / `Err(non-terminal DataError)` / `Err(DataError::InvalidSequence)` / latency, ending or
+//! list of `Ok(event)` / `Err(non-terminal DataError: each of the seven variants)` / `Err(DataError::InvalidSequence)` / latency, ending or
 //! staying open) and logs the call with the number of subscriptions it was handed. Every `conn` op appends one
 //! `init` outcome and re-runs `init_market_stream::<Scripted<N>, MarketDataInstrument, PublicTrades>(policy,
 //! subscriptions)` on the script so far, on a fresh current-thread runtime with a paused clock; the returned
@@ -28,13 +28,14 @@ use barter_data::{
     },
     subscriber::{WebSocketSubscriber, validator::WebSocketSubValidator},
     subscription::{
-        Subscription,
+        SubKind, Subscription,
         trade::{PublicTrade, PublicTrades},
     },
 };
 use barter_instrument::{
     Side,
     exchange::ExchangeId,
+    index::error::IndexError,
     instrument::market_data::{MarketDataInstrument, kind::MarketDataInstrumentKind},
 };
 use barter_integration::{error::SocketError, protocol::websocket::WsMessage, subscription::SubscriptionId};
@@ -59,7 +60,22 @@ enum ErrKind {
     Socket,
     SnapshotMissing,
     SnapshotInvalid,
+    // the four variants the repository's own streams do not yield (init / indexing errors): nothing in the types
+    // keeps them out of a stream, and `is_terminal` classifies them too
+    Index,
+    SubscriptionsEmpty,
+    UnsupportedSubKind,
+    Unsupported,
 }
+
+const SUB_KINDS: [SubKind; 6] = [
+    SubKind::PublicTrades,
+    SubKind::OrderBooksL1,
+    SubKind::OrderBooksL2,
+    SubKind::OrderBooksL3,
+    SubKind::Liquidations,
+    SubKind::Candles,
+];
 
 #[derive(Debug, Clone, Copy)]
 enum Elem {
@@ -107,6 +123,13 @@ fn parse_conn(toks: &[String]) -> Option<Conn> {
                     "e" => Elem::Error(ErrKind::Socket, n),
                     "m" => Elem::Error(ErrKind::SnapshotMissing, n),
                     "v" => Elem::Error(ErrKind::SnapshotInvalid, n),
+                    "n" => Elem::Error(ErrKind::Index, n),
+                    // no payload
+                    "s" if n == 0 => Elem::Error(ErrKind::SubscriptionsEmpty, 0),
+                    // payload = SubKind #n
+                    "k" if n < 6 => Elem::Error(ErrKind::UnsupportedSubKind, n),
+                    // payload = (mock | simulated, SubKind #(n % 6))
+                    "u" if n < 12 => Elem::Error(ErrKind::Unsupported, n),
                     "d" => Elem::Delay(n),
                     _ => return None,
                 });
@@ -126,7 +149,18 @@ fn data_error(kind: ErrKind, id: u64) -> DataError {
         ErrKind::Socket => DataError::Socket(id.to_string()),
         ErrKind::SnapshotMissing => DataError::InitialSnapshotMissing(SubscriptionId::from(id.to_string().as_str())),
         ErrKind::SnapshotInvalid => DataError::InitialSnapshotInvalid(id.to_string()),
+        ErrKind::Index => DataError::Index(IndexError::InstrumentIndex(id.to_string())),
+        ErrKind::SubscriptionsEmpty => DataError::SubscriptionsEmpty,
+        ErrKind::UnsupportedSubKind => DataError::UnsupportedSubKind(SUB_KINDS[id as usize]),
+        ErrKind::Unsupported => DataError::Unsupported {
+            exchange: if id < 6 { ExchangeId::Mock } else { ExchangeId::Simulated },
+            sub_kind: SUB_KINDS[(id % 6) as usize],
+        },
     }
+}
+
+fn sub_kind_index(k: &SubKind) -> Option<usize> {
+    SUB_KINDS.iter().position(|x| x == k)
 }
 
 /// `<kind letter><id>` of a delivered / handled error (the inverse of `data_error`)
@@ -138,6 +172,14 @@ fn fmt_err(e: &DataError) -> String {
         DataError::Socket(s) => format!("e{s}"),
         DataError::InitialSnapshotMissing(id) => format!("m{}", id.0),
         DataError::InitialSnapshotInvalid(s) => format!("v{s}"),
+        DataError::Index(IndexError::InstrumentIndex(s)) => format!("n{s}"),
+        DataError::SubscriptionsEmpty => "s0".to_string(),
+        DataError::UnsupportedSubKind(k) if sub_kind_index(k).is_some() => format!("k{}", sub_kind_index(k).unwrap()),
+        DataError::Unsupported { exchange, sub_kind }
+            if sub_kind_index(sub_kind).is_some() && matches!(exchange, ExchangeId::Mock | ExchangeId::Simulated) =>
+        {
+            format!("u{}", sub_kind_index(sub_kind).unwrap() + if *exchange == ExchangeId::Mock { 0 } else { 6 })
+        }
         other => format!("other:{}", format!("{other:?}").replace(' ', "_")),
     }
 }
@@ -475,7 +517,15 @@ fn gen_elems(rng: &mut Rng, max_len: i64, terminal_pct: u64) -> String {
         if r < terminal_pct {
             toks.push(format!("T{x}"));
         } else if r < terminal_pct + 18 {
-            toks.push(format!("{}{x}", rng.pick(&["e", "e", "m", "v"])));
+            // every non-terminal variant of DataError (`s` = SubscriptionsEmpty carries no payload)
+            let k = *rng.pick(&["e", "e", "m", "v", "n", "s", "k", "u"]);
+            if k == "s" {
+                toks.push("s0".to_string());
+            } else if k == "u" {
+                toks.push(format!("u{}", x + 6 * rng.below(2)));
+            } else {
+                toks.push(format!("{k}{x}"));
+            }
         } else if r < terminal_pct + 28 {
             toks.push(format!("d{}", rng.pick(&[0u64, 1, 7, 50])));
         } else {
@@ -519,8 +569,8 @@ fn generate(seed: u64, n_cases: usize, tier: &str) {
             "conn ok",
             "conn ok i1",
             "conn ok i1 T2 i3",
-            "conn ok e1 i2",
-            "conn ok m1 v2 i3",
+            "conn ok e1 n2 s0 i2",
+            "conn ok m1 v2 k3 u7 i3",
             "conn ok i1 hang",
             "conn ok T1 hang",
             "conn ok i1 T2 i3 hang",
